@@ -1,11 +1,5 @@
 //! `core <Cnn> quick|thorough` / `core replay <Cnn> <file>`: checks for C01-C14 and C20.
 
-mod c_animator;
-mod c_easing;
-mod c_lerp;
-mod c_robust;
-mod c_timeline;
-mod c_timescale;
 
 use mv_engine::Run;
 
@@ -13,7 +7,7 @@ fn main() {
     let args: Vec<String> = std::env::args().skip(1).collect();
     if args.first().map(|s| s.as_str()) == Some("c20-child") {
         mv_engine::quiet_panics();
-        std::process::exit(c_robust::c20_child(&args));
+        std::process::exit(mv_core::c_robust::c20_child(&args));
     }
     let Some(mut run) = Run::from_args(&args) else {
         eprintln!("usage: core <C01..C14|C20> [quick|thorough] | core replay <Cnn> <file>");
@@ -21,21 +15,21 @@ fn main() {
     };
     mv_engine::quiet_panics();
     match run.id.as_str() {
-        "C01" => c_timeline::c01(&mut run),
-        "C02" => c_timeline::c02(&mut run),
-        "C03" => c_timescale::c03(&mut run),
-        "C04" => c_animator::c04(&mut run),
-        "C05" => c_animator::c05(&mut run),
-        "C06" => c_animator::c06(&mut run),
-        "C07" => c_animator::c07(&mut run),
-        "C08" => c_timeline::c08(&mut run),
-        "C09" => c_timeline::c09(&mut run),
-        "C10" => c_timeline::c10(&mut run),
-        "C11" => c_timeline::c11(&mut run),
-        "C12" => c_timeline::c12(&mut run),
-        "C13" => c_easing::c13(&mut run),
-        "C14" => c_lerp::c14(&mut run),
-        "C20" => c_robust::c20(&mut run),
+        "C01" => mv_core::c_timeline::c01(&mut run),
+        "C02" => mv_core::c_timeline::c02(&mut run),
+        "C03" => mv_core::c_timescale::c03(&mut run),
+        "C04" => mv_core::c_animator::c04(&mut run),
+        "C05" => mv_core::c_animator::c05(&mut run),
+        "C06" => mv_core::c_animator::c06(&mut run),
+        "C07" => mv_core::c_animator::c07(&mut run),
+        "C08" => mv_core::c_timeline::c08(&mut run),
+        "C09" => mv_core::c_timeline::c09(&mut run),
+        "C10" => mv_core::c_timeline::c10(&mut run),
+        "C11" => mv_core::c_timeline::c11(&mut run),
+        "C12" => mv_core::c_timeline::c12(&mut run),
+        "C13" => mv_core::c_easing::c13(&mut run),
+        "C14" => mv_core::c_lerp::c14(&mut run),
+        "C20" => mv_core::c_robust::c20(&mut run),
         other => {
             eprintln!("unknown property {other}");
             std::process::exit(2);
